@@ -199,7 +199,12 @@ func dstTrees(clauses int, kept bool, nested bool, allot bool) []string {
 	if nested {
 		out = append(out, "{ max %C to { max %C to @d remaining to @e } remaining to @a }",
 			"{ max %C to { 1/2 to @d 1/2 to @e } remaining to @d }",
-			"{ 1/2 to { max %C to @d remaining kept } 1/2 to @e }")
+			"{ 1/2 to { max %C to @d remaining kept } 1/2 to @e }",
+			// kept inside a nested block that is followed by another receiver
+			"{ max %C to { max %C to @d remaining kept } remaining to @e }",
+			"{ 1/2 to { remaining kept } 1/2 to @e }",
+			"{ max %C to { 1/2 kept 1/2 to @d } remaining to @e }",
+			"{ 1/3 to { max %C kept remaining to @d } remaining to { max %C to @e remaining kept } }")
 	}
 	return dedupe(out)
 }
